@@ -13,7 +13,9 @@ ALSO = ("Also not acceptable any more (seen many times): pointers into cached da
         "==/DeepEqual swaps, byte-vs-rune length, int64(uint) wraps, float64 comparisons of big integers, anything involving time.Time fields and "
         "field-table indexes/offsets, one-byte or '|'-containing custom messages, symlinks, Stringer or float map keys, repeated URL parameters, "
         "pointer-to-zero values, blank rule-map entries, *string URL inputs, RM.Set with several field names, zero-padded bounds, tag names differing in case, "
-        "dropping the tag-name argument of an entry point, '#' in URLs, carriage returns, dot-files, uintptr, IPv6 zones. "
+        "dropping the tag-name argument of an entry point, '#' in URLs, carriage returns, dot-files, uintptr, IPv6 zones, field names starting with a particular letter, "
+        "byte order marks, panicking callbacks, nesting-depth limits, the most negative integer, empty pieces or bare keys or ';' in URL queries, quotes or brackets or leading blanks in messages, "
+        "embedded fields, tag keys with underscores, a variable captured by a closure in a loop, reused reflect iteration holders, trimming blanks off rule text, arrays passed by value, unhashable interface values. "
         "First read ALL non-test source files and the README; make a list of every function, branch and documented behaviour relevant to this property "
         "that NONE of the items above touches, and pick from that list. Prefer faults in code paths that look boring (helpers in common.go / init.go / "
         "abstract.go / rule.go / handletag.go / witre.go / dump.go, error-path bookkeeping, separators, defaults, path naming, label handling, ordering of "
